@@ -2,12 +2,16 @@ INIT Init
 NEXT Next
 CONSTANTS
 MaxFields = 3
-HotKinds = {"bool", "int", "float", "string", "float32", "[]float32", "lstring", "*int", "*S", "[]int", "[]uint8", "[]S", "[]*S", "[2]S", "map[string]S", "[2]int", "map[string]int", "map[string]*S", "any", "S", "anon", "time", "E1", "*E1", "E2", "E3", "E4", "*P2", "*Q2", "R1", "[4]uint8", "BS", "Tagged", "W"}
+HotKinds = {"bool", "int", "float", "string", "float32", "[]float32", "lstring", "*int", "*S", "[]int", "[]uint8", "[]S", "[]*S", "[2]S", "map[string]S", "[2]int", "map[string]int", "map[string]*S", "any", "S", "anon", "time", "E1", "*E1", "E2", "E3", "E4", "Pair[int]", "SP", "E0", "[1]*int", "Doc", "Dia", "*Meta", "*P2", "*Q2", "R1", "[4]uint8", "BS", "Tagged", "W"}
 HotTags = {"", "nm", "oe", "str", "dash"}
 NbrSet = "quick"
-EmbKinds = {"E1", "*E1", "E2", "E3", "E4", "*P2", "*Q2", "R1"}
+EmbKinds = {"E1", "*E1", "E2", "E3", "E4", "*P2", "*Q2", "R1", "Stamp", "Base", "B1", "C1", "D0"}
+EmbGraph = {"Stamp", "Base", "B1", "C1", "D0"}
+DeepBases = {"S"}
+MaxDepth = 6
+DeepAll = FALSE
 NameMenu = {"A", "ID", "Ab", "URL", "Abc", "AbC", "DNSX", "AbCd", "ABcd"}
-TwoVariant = {"[0]uint8", "[1]uint8", "bool", "int", "uint8", "string", "[2]float32", "[2]int", "time", "MyInt", "Simp", "PSimp", "Gen", "JM", "PJM", "TM"}
+TwoVariant = {"E0", "[0]uint8", "[1]uint8", "bool", "int", "uint8", "string", "[2]float32", "[2]int", "time", "MyInt", "Simp", "PSimp", "Gen", "JM", "PJM", "TM"}
 NbrDistinct = TRUE
 CONSTRAINT Emit
 CHECK_DEADLOCK FALSE
